@@ -74,3 +74,33 @@ TEXT["C10"] = {
     "level_text": "Every interleaving of two contenders' individual file-system operations up to 8 (quick) / 12 (thorough) scheduling decisions, with at most one kill -9 at any yield point, from five initial lock-file states, cold and with an established holder (where a waiter may also be cancelled), is executed against the real locker; random 3-process schedules extend this. Safety (never two holders, newcomer cannot enter), no Lock error, progress of survivors and recovery by a fresh process are checked.",
     "level_note": "Exhaustive only within the decision bound and for 2 processes; steps are serialised by the controller (atomic file-system calls). The yield-point table is fixed (os.OpenFile/ReadFile/Remove/Stat/..., Write/Close/Truncate, syscall.Flock, Process.Signal, time.After).",
 }
+
+_HIST_ENGINE = "harness/lib/histeng (workspace model, command template, expectation interpreter, 3-valued reference model, sandbox runner driving the real binary) + harness/%s"
+def _hist_text(pid, technique, level_text, note):
+    TEXT[pid] = {"engine": _HIST_ENGINE % pid.lower(), "technique": technique, "design_ref": "DESIGN.md §4 " + pid, "level_text": level_text, "level_note": note}
+
+_hist_text("C01", "stateful model-based property testing of the real binary: generated edit/build histories over one persistent cache, outputs compared with an independently computed expectation and (sampled) with a from-scratch build",
+    "Histories of 4-12 steps (every edit kind incl. boundary shifts, reverts to earlier states, glob membership changes, alias re-routing) are played against the real grog binary; after each successful build every declared output of every selected target must equal the harness-computed expectation, and every 4th successful build a pristine from-scratch build must agree.",
+    "Trusted: the command template's determinism and the 40-line expectation interpreter (cross-checked against from-scratch grog builds on a sample). Small graphs (<=6 targets) on purpose: stale hits need a pair of states, not a big graph.")
+_hist_text("C02", "stateful model-based property testing: executed sets (trace lines written by the commands themselves) against a three-valued reference model, under workspace perturbations",
+    "Between builds the workspace copies of declared outputs are deleted, truncated, overwritten, chmod-ed, polluted or replaced, parents removed; builds run in both load_outputs modes, both hash algorithms and 1-8 workers. No MUST-NOT target may execute, every MUST target must, a no-op rebuild executes nothing, and outputs must be exact afterwards.",
+    "MAY verdicts (entries written with caching off, after faults, fail-fast races) are never violations. Checkout relocation is not exercised (the cache directory name is derived from the workspace path).")
+_hist_text("C05", "stateful model-based property testing with injected command failures (undeclared switch files) in keep-going and fail-fast mode, plus walker-level containment in a synctest bubble",
+    "Failing subsets (exit status, missing declared output, timeout, failing/wrong post-condition, self-SIGKILL) are switched on and off without moving cache keys. Keep-going: independent targets complete, dependants are skipped, exit != 0, failed targets named, nothing cached (follow-up build runs them again). Fail-fast at walker level: no command starts at a later virtual instant than the first failure.",
+    "For fail-fast builds of the real binary only the safe half is asserted (dependants of a failed target never run; exit != 0); which independent targets still start is timing dependent and left MAY.")
+_hist_text("C13", "stateful model-based property testing over taint / no-cache / enable_cache histories with a three-valued model and a listed known finding",
+    "grog taint, no-cache tag toggles and --enable-cache=false builds are mixed with edits and failures; forced targets must run, a successful forced run consumes the taint (a failed one does not), dependants with unchanged dependency outputs stay cached.",
+    "One known finding is listed (dependants rebuilt once after a dependency switches between cached and uncached execution, two output-hash formulas); the model recognises exactly that pattern, reports it as KNOWN-FINDING and continues the history.")
+_hist_text("C14", "stateful model-based property testing with external post-conditions (markers outside the workspace), timeouts, missing outputs and signal deaths",
+    "Output checks over external markers are established, cached, destroyed and falsified; commands may skip a declared output, overrun their timeout or die from SIGKILL. Success (exit 0, cached) is only accepted when the command ended, all outputs exist and all checks pass; a failing check forces execution despite a cached result.",
+    "Timeouts are 8 s against commands that take ~50 ms and a slow switch of 40 s (order-of-magnitude separation on both sides).")
+_hist_text("C15", "differential (lock-step) property testing: the same generated history under load_outputs=all and =minimal in separate sandboxes, with cache faults",
+    "Every build is played in two sandboxes with separate caches and models. Exit status must agree; executed sets must agree when both models are certain; every target executed under minimal must produce exactly the expected bytes (its dependency outputs, also behind aliases, were present and current). Fault steps wipe the blob store and workspace outputs in both sandboxes.",
+    "With injected faults or entries of unknown provenance executed sets may differ (stated by the property); then only exit status and bytes are compared.")
+TEXT["C20"] = {
+    "engine": "harness/c20 + lib/histeng sandbox (real binary)",
+    "technique": "model-based and metamorphic property testing of the query commands: full deps/rdeps matrix against reference closures, inverse law computed from the outputs, owners/list against reference sets, rebuild-prediction check",
+    "design_ref": "DESIGN.md §4 C20",
+    "level_text": "For every node of generated graphs deps/rdeps (direct and transitive) must print exactly the reference set, each label once; deps -t and rdeps -t must be mutual inverses; owners and list are compared with reference sets under different cwds, spellings and type filters; after an edit, the rebuilt targets must lie within owners(f) and their transitive rdeps.",
+    "level_note": "Trusted: reference closures over the node graph (aliases are nodes) and refmodel pattern matcher. `grog changes` is not exercised (needs git history).",
+}
